@@ -601,6 +601,8 @@ func judges(c *GenCtx, ops []Op, model map[int]string) []Diff {
 		return judgeStatic(c, ops)
 	case "C09":
 		return judgeCost(c, ops)
+	case "C13":
+		return judgeSort(c, ops)
 	case "C14":
 		return judgeRepr(c, ops)
 	case "C15":
